@@ -74,7 +74,7 @@ var configs = map[string]*propConfig{
 		id: "C13", level: "exploration", checkptr: "1", plain: true,
 		quickRuns: 150000, thorRuns: 3000000, enumQuick: true, enumThor: true,
 		memKB: 4 << 20, quickWall: 70 * time.Second, thorWall: 15 * time.Minute, runTimeout: 20 * time.Second,
-		rule: "seeded histories (1..14 calls quick, 1..40 thorough) of Append(x) / Append(x,y,x) / Remove(x) / Remove(nil) / Contains / Count on the six collection kinds, over a generated pool of 3..8 items with pairwise distinct ids in the shapes IRI, *Object, Object, *Actor, Actor, *Activity, Activity (nested properties from the reflect-driven generator), with knobs: initial contents nil or a literal prefix of the pool, exact or spare capacity holding sentinel members, access through the type's own methods, through OnCollectionIntf, or mixed; Remove always through the item-list view (OnItemCollection). Plus the bounded-exhaustive tier: every sequence of length 1..L (L=4 quick, 6 thorough) over the 9-letter alphabet {Append(p_i), Remove(p_i), Append(p_i,p_j,p_i)} on a 3-item pool, for every kind x 3 pool-shape variants x spare capacity {0,2} x initial members {0,2} x access {direct, OnCollectionIntf}. distinct = distinct hash of the rendered history (seeded) / distinct enumerated tuple (exhaustive); non-trivial = contains at least one Append or Remove.",
+		rule: "seeded histories (1..14 calls quick, 1..40 thorough) of Append(x) / Append(x,y,x) / Remove(x) / Remove(nil) / Contains / Count on the six collection kinds, over a generated pool of 3..8 items with pairwise distinct ids in the shapes IRI, *Object, Object, *Actor, Actor, *Activity, Activity (nested properties from the reflect-driven generator), with knobs: initial contents nil or a literal prefix of the pool, exact or spare capacity holding sentinel members, access through the type's own methods, through OnCollectionIntf, or mixed; Remove always through the item-list view (OnItemCollection). Plus the bounded-exhaustive tier: every sequence of length 1..L (L=4 quick, 5 thorough) over the 9-letter alphabet {Append(p_i), Remove(p_i), Append(p_i,p_j,p_i)} on a 3-item pool, for every kind x 3 pool-shape variants x spare capacity {0,2} x initial members {0,2} x access {direct, OnCollectionIntf}. distinct = distinct hash of the rendered history (seeded) / distinct enumerated tuple (exhaustive); non-trivial = contains at least one Append or Remove.",
 		assumptions: []string{
 			"pool items carry pairwise distinct ids; list-valued properties of pool items carry ids (the domain the properties state for lists); Link values are not placed inside pool items (Link equality is C09's subject, not a collection behaviour)",
 			"OnCollectionIntf and ToItemCollection present an IRI list as a converted copy (documented), so writes through them are not part of an IRI list's history; Remove is not defined on IRI lists",
